@@ -115,12 +115,12 @@ def device_fields(dev) -> dict:
          "state": enums.state(dev.device_state)}
     if hasattr(dev, "power_consumption"):
         g["watts"] = enums.integer(dev.power_consumption)
-        g["amps10"] = int(round(dev.electric_current * 10))
+        g["amps10"] = enums.tenths(dev.electric_current)
     if hasattr(dev, "remaining_time"):
         g["remaining"] = text(dev.remaining_time)
         g["auto"] = text(dev.auto_shutdown)
     if hasattr(dev, "mode"):
-        g.update(mode=enums.mode(dev.mode), temp10=int(round(dev.temperature * 10)), target=enums.integer(dev.target_temperature),
+        g.update(mode=enums.mode(dev.mode), temp10=enums.tenths(dev.temperature), target=enums.integer(dev.target_temperature),
                  fan=enums.fan(dev.fan_level), swing=enums.swing(dev.swing), remote=text(dev.remote_id))
     if hasattr(dev, "position"):
         g.update(position=enums.integer(dev.position), direction=enums.direction(dev.direction))
